@@ -175,7 +175,7 @@ func CheckC10(h *History, blk *BlockRecord) []Violation {
 		// "at that moment" is the state the closer met, not the state before the block: what other transactions and
 		// other forced closes of the same block did to the pool before is not observable from outside. The position is
 		// judged only when all of that together is small against the pool (three thousandths of it).
-		if mv := h.c10Movement(blk, p.AmmPoolId, p.Id); mv > 0.003 {
+		if mv := h.c10Movement(blk, p.AmmPoolId, p.Id, 0); mv > 0.003 {
 			h.Labels["c10-lp-not-judged(pool-moved-inside-the-block)"]++
 			continue
 		}
@@ -296,6 +296,10 @@ func CheckC10(h *History, blk *BlockRecord) []Violation {
 			if _, err := k.SettleMTPBorrowInterestUnpaidLiability(ctx, &mm, &ppool, amm); err == nil {
 				_ = k.SettleFunding(ctx, &mm, &ppool, amm)
 			}
+		}
+		if mv := h.c10Movement(blk, m.AmmPoolId, 0, m.Id); mv > 0.003 {
+			h.Labels["c10-mtp-not-judged(pool-moved-inside-the-block)"]++
+			continue
 		}
 		health, herr := k.GetMTPHealth(ctx, mm, amm, ptypes.BaseCurrency)
 		if herr == nil {
@@ -431,7 +435,7 @@ func CheckC10(h *History, blk *BlockRecord) []Violation {
 // c10Movement: an upper estimate of how far other successful transactions and other forced closes of the block moved
 // amm pool id, as a fraction of the pool (1 = cannot be bounded). Queued swaps do not count: they run after every
 // transaction of the block.
-func (h *History) c10Movement(blk *BlockRecord, id uint64, exceptLP uint64) float64 {
+func (h *History) c10Movement(blk *BlockRecord, id uint64, exceptLP, exceptMTP uint64) float64 {
 	prev := h.Prev
 	amm := prev.Pool(id)
 	if amm == nil || !amm.TotalShares.Amount.IsPositive() {
@@ -505,7 +509,7 @@ func (h *History) c10Movement(blk *BlockRecord, id uint64, exceptLP uint64) floa
 		curMTP[m.Id] = true
 	}
 	for _, m := range prev.MTPs {
-		if m.AmmPoolId == id && !curMTP[m.Id] {
+		if m.AmmPoolId == id && !curMTP[m.Id] && m.Id != exceptMTP {
 			mv += frac(m.Custody, reserveOf(amm, m.CustodyAsset))
 		}
 	}
